@@ -19,9 +19,11 @@ INVARIANTS = ["Inv_Precedence", "Inv_UnknownIgnored", "Inv_Offline", "Inv_Output
 # (name, Mode, Vocab, MaxWeight, simulate behaviours or None, cap on replayed cases or None)
 PLAN = {
     "quick": [("prec", "prec", "small", 0, None, None), ("unk", "unk", "small", 0, None, None),
+              ("pair", "pair", "small", 0, None, None),
               ("table3", "table", "small", 3, None, None), ("ext2", "ext", "small", 2, None, None),
               ("rtable", "rtable", "small", 0, 1600, None), ("dense", "dense", "big", 0, 1200, None)],
     "thorough": [("prec", "prec", "big", 0, None, None), ("unk", "unk", "small", 0, None, None),
+                 ("pair", "pair", "big", 0, None, None),
                  ("table", "table", "small", 17, None, None), ("ext3", "ext", "small", 3, None, None),
                  ("dense", "dense", "big", 0, 16000, None)],
 }
